@@ -553,7 +553,7 @@ Definition remove_ind (ind : ix) (project : option nat) (s : tstate) : tstate :=
   if memb ind (removed (sliced s)) then set_err s
   else
     let s1 := contract_stats false s in
-    let s2 := fold_left (fun s p => fst (g_involved s (fst p))) (children s1) s1 in
+    let s2 := fold_left (fun s p => fst (g_legs (fst (g_involved s (fst p))) (fst p))) (children s1) s1 in
     let d := zget ind (szd n) in
     let s3 := match project with None => set_mult (mult s2 * d)%Z s2 | Some _ => s2 end in
     let s4 := set_sliced (sort_by sl_le (sliced s3 ++ [mkSl ind project])) s3 in
